@@ -228,6 +228,7 @@ type node struct {
 	decVal  []byte
 	hasDec  bool
 	started bool
+	rewound bool // UponDecided moved the round of this (undecided) instance backwards (signature of F6)
 	nops    int
 }
 
@@ -465,6 +466,10 @@ func (nd *node) deliver(m *specqbft.SignedMessage) []*specqbft.SignedMessage {
 		nd.lines = append(nd.lines, "CMSG "+tree)
 		var dec *specqbft.SignedMessage
 		var err error
+		roundBefore, undecidedBefore := uint64(0), false
+		if st := nd.state(); st != nil {
+			roundBefore, undecidedBefore = uint64(st.Round), !st.Decided
+		}
 		p := recovered(func() {
 			dec, err = nd.ctrl.ProcessMsg(logger, m)
 			// BaseRunner.compactInstanceIfNeeded
@@ -474,6 +479,11 @@ func (nd *node) deliver(m *specqbft.SignedMessage) []*specqbft.SignedMessage {
 				}
 			}
 		})
+		if st := nd.state(); st != nil && undecidedBefore && st.Decided && controller.IsDecidedMsg(nd.share, m) &&
+			m.Message.Height == nd.height && uint64(st.Round) < roundBefore {
+			nd.rewound = true
+			nd.lines = append(nd.lines, fmt.Sprintf("# backward rewind: a decided message of round %d moved the undecided instance from round %d back", uint64(st.Round), roundBefore))
+		}
 		switch {
 		case p != nil:
 			nd.lines = append(nd.lines, "OBS cmsg panic")
@@ -626,6 +636,16 @@ type sim struct {
 	level      string
 	mutAny     bool // mutate with any operator's key (single-instance conformance, C06) instead of byz keys only
 	stats      map[string]int
+}
+
+func (s *sim) rewoundNodes() []int {
+	var out []int
+	for _, id := range s.honest {
+		if s.nodes[id].rewound {
+			out = append(out, int(id))
+		}
+	}
+	return out
 }
 
 func (s *sim) sign(id spectypes.OperatorID, msg *specqbft.Message, full []byte) *specqbft.SignedMessage {
@@ -1020,8 +1040,8 @@ func oneRun(out *hx.Out, w *world, seed, c uint64, level string, nbyz int, mutAn
 			if first == nil {
 				first = nd
 			} else if !bytes.Equal(first.decVal, nd.decVal) {
-				agree = append(agree, fmt.Sprintf("c01 operators %d and %d reported different decisions %s and %s",
-					first.id, nd.id, valueID(first.decVal), valueID(nd.decVal)))
+				agree = append(agree, fmt.Sprintf("c01 operators %d and %d reported different decisions %s and %s backward-rewind-at=%v",
+					first.id, nd.id, valueID(first.decVal), valueID(nd.decVal), s.rewoundNodes()))
 			}
 		}
 		maxRound := uint64(0)
@@ -1136,8 +1156,8 @@ func scenarioF6(out *hx.Out) {
 		if first == nil {
 			first = nd
 		} else if !bytes.Equal(first.decVal, nd.decVal) {
-			agree = append(agree, fmt.Sprintf("c01 operators %d and %d reported different decisions %s and %s",
-				first.id, nd.id, valueID(first.decVal), valueID(nd.decVal)))
+			agree = append(agree, fmt.Sprintf("c01 operators %d and %d reported different decisions %s and %s backward-rewind-at=%v",
+				first.id, nd.id, valueID(first.decVal), valueID(nd.decVal), s.rewoundNodes()))
 		}
 	}
 	for _, id := range s.honest {
